@@ -172,13 +172,17 @@ def delimited_kinds(run, f, cfg, adt, dialect):
                         if v.startswith(SE + "::"):
                             arms.setdefault(v.rsplit("::", 1)[-1], x)
     memo = {}
+    in_progress = set()
+    tainted = [0]        # > 0 while the value being computed depends on a cut-off (recursion / depth): such values are not cached
 
     def fn_shape(callee, depth=0):
         """('paren'|'atom'|'open', ...) summary of a renderer: does everything it writes form one self-delimiting unit"""
         name = f.impl_fn(QB, adt, callee.rsplit("::", 1)[-1]) or callee
         if name in memo:
             return memo[name]
-        memo[name] = "open"
+        if name in in_progress:
+            tainted[0] += 1
+            return "open"
         try:
             t = T.fn_tir(f, name)
         except KeyError:
@@ -186,12 +190,17 @@ def delimited_kinds(run, f, cfg, adt, dialect):
         sink = [s for s, k in t.sinks.items() if k == "writer"]
         if not sink:
             return "open"
+        in_progress.add(name)
+        before = tainted[0]
         r = shape(T.project(t.effects, sink[0]), depth + 1)
-        memo[name] = r
+        in_progress.discard(name)
+        if tainted[0] == before:
+            memo[name] = r
         return r
 
     def shape(S, depth=0):
-        if depth > 6:
+        if depth > 12:
+            tainted[0] += 1
             return "open"
         try:
             paths = T.expand_paths(strip_loops(S))
@@ -500,6 +509,8 @@ def check_implicit_contexts(run, f, cfg, adt, dialect, tab, sp, spell, domain, d
             owners = set(owner(c_, depth + 1) for c_ in cs)
             if len(owners) == 1 and None not in owners:
                 return owners.pop()
+            if owners and owners <= set(TABULATED):
+                return sorted(owners)[0]        # shared by renderers whose tables (R1 / R2 / R4) are interpreted through it
         return None
     for fn, pv, nx, spn in ctxs:
         fn = owner(fn) or fn
